@@ -179,7 +179,8 @@ def drive(rec):
 
 def gen(args):
     import random
-    row, seed, fmt, via, prov = args
+    row, seed, fmt, via, prov = args[:5]
+    force_near_right = len(args) > 5 and args[5]
     rng = random.Random(seed)
     n = rng.choice([12, 24, 48])
     general_only = fmt == "poscar"
@@ -205,6 +206,13 @@ def gen(args):
         for i, s in enumerate(asym):
             s["label"] = "%s%d" % (xtal.SYMBOLS[s["z"]], i + 1)
     gram = xtal.oblique_gram(rng) if (row["number"] <= 2 and rng.random() < 0.5) else xtal.sym_gram(row["ops"], rng)
+    near_right = False
+    if row["number"] <= 2 and (force_near_right or rng.random() < 0.3):
+        # an angle a few hundredths of a degree away from 90 (cos = 1/1500 .. 1/3000): still not a right angle
+        d = [rng.randint(1200, 3000) for _ in range(3)]
+        gram = [[d[0], rng.choice([-1, 1]), 0], [0, d[1], rng.choice([-1, 0, 1])], [0, 0, d[2]]]
+        gram[1][0], gram[2][1], gram[2][0] = gram[0][1], gram[1][2], gram[0][2]
+        near_right = True
     vol = max(len(row["ops"]) * len(asym) * 15.0, 80.0)
     u = (vol / math.sqrt(xtal.det3(gram))) ** (1 / 3.0)
     if rng.random() < 0.2:
@@ -216,7 +224,8 @@ def gen(args):
         li = math.sqrt(gram[i][i]) * u
         u = (max(3.0, round(li)) + rng.choice([-1, 1]) * rng.choice([3e-6, 2e-5, 8e-5])) / math.sqrt(gram[i][i])
     rec = {"number": row["number"], "choice": row["choice"], "n": n, "gram": gram, "u": u, "asym": asym, "fmt": fmt, "via": via,
-           "provenance": prov, "route": rng.choice(["params", "vectors"]), "written_before": rng.random() < 0.4}
+           "provenance": prov, "route": "vectors" if near_right else rng.choice(["params", "vectors"]),
+           "written_before": rng.random() < 0.4}
     if fmt == "poscar" and rng.random() < 0.4:
         # a POSCAR stores lattice vectors: the crystal may hold them in any orientation
         from harness.c13 import rand_rotation
@@ -245,6 +254,10 @@ def run(ctx):
                 via = rng.choice(["string", "file"])
                 prov = rng.choice(["memory", "memory", "loaded-cif", "loaded-res", "loaded-rich-cif"])
                 jobs.append((r, ctx.seed * 15485863 + i * 101 + k * 7 + len(fmt), fmt, via, prov))
+    tri = [r for r in rows if r["number"] <= 2]
+    for j in range(ctx.pick(24, 400)):
+        jobs.append((tri[j % 2], ctx.seed * 7919 + 50000 + j, ("res", "cif", "poscar")[j % 3], rng.choice(["string", "file"]),
+                     rng.choice(["memory", "loaded-cif", "loaded-res"]), True))
     recs = [x for x in pool_map(gen, jobs) if "__none__" not in x]
     traces = pool_map(drive, recs)
     ctx.validate("trace/Trace_CrystalFile.tla", traces, batch=2500, timeout=2400)
